@@ -5,7 +5,7 @@ patch=$1; shift
 tmp=$(mktemp -d /var/tmp/seedtry-XXXX)
 base=${SEED_BASE:-/repo}
 mkdir -p $tmp/pynetdicom
-(cd $base && tar cf - --exclude=tests --exclude=__pycache__ pynetdicom) | tar xf - -C $tmp
+(cd $base && tar cf - --exclude=tests --exclude=__pycache__ pynetdicom docs/service_classes) | tar xf - -C $tmp
 (cd $tmp && patch -p1 -s --no-backup-if-mismatch < $patch) || echo "PATCH FAILED"
 for p in "$@"; do
   VERIF_REPO=$tmp VERIF_EVIDENCE_DIR=$tmp/ev /verif/check $p | grep -v "^KNOWN-FINDING\|path:" | tail -8
